@@ -303,6 +303,10 @@ std::tuple<bool, GaussianMixture, MatrixXd> bfl::sigma_point::unscented_transfor
     GaussianMixture output;
     std::tie(valid, output, cross_covariance) = unscented_transform(state, weight, f);
 
+    /* Nothing to post-process if the function evaluation failed. */
+    if (!valid)
+        return std::make_tuple(false, output, cross_covariance);
+
     /* In the additive case the covariance matrix is augmented with the noise
        covariance matrix. */
     MatrixXd noise_cov;
